@@ -336,6 +336,16 @@ Proof.
   rewrite parse_toks_app_colon, Hpre. apply parse_toks_items_colon; assumption.
 Qed.
 
+Lemma in_context_keyword : forall (pre k v : list N) args kw,
+  parse pre = POk args kw -> is_ascii k = true ->
+  parse (pre ++ COLON :: quoteStringArgument k ++ [EQUALS] ++ quoteStringArgument v)
+  = POk args (kw_set kw k v).
+Proof.
+  intros pre k v args kw H Hk.
+  refine (in_context_end pre [Kw k v] (args, kw) ltac:(discriminate) _ H).
+  cbn. rewrite Hk. reflexivity.
+Qed.
+
 (** refusal half: a keyword NAME that is not ASCII is refused with UnicodeEncodeError (names
     become Python keyword-argument names); values and positional texts are unrestricted *)
 Lemma non_ascii_key_refused : forall pre k v st, parse pre = pok st -> is_ascii k = false ->
